@@ -12,10 +12,11 @@
                              side touches nothing but the downstream handler, so it commutes with every other
                              label and is merged with the arm that receives its misses.
      ArriveEvent e peek      DispatchEvent(e): same, through handleIncomingEvent.
-     SendLookup s            Run's refill after an arm: a pending source leaves toLookupIPs towards IpSink().
-                             The code pops the most recently pushed source; which one that is depends on Go's
-                             map iteration order inside handleIncomingMetrics, so the model lets ANY pending
-                             source leave (a superset of the code's behaviours; the theorems cover all of it).
+     SendLookup s            Run's arm `toLookupC <- toLookupIP`: the source in the send register is received by
+                             the cache on IpSink().  The register is loaded by the refill at the bottom of Run's
+                             loop (after EVERY arm: [step] = arm, then [refill]) from the top of the stack
+                             toLookupIPs; see [lstate] for how the stack is modelled (LIFO between arms, any
+                             order among the sources one handleIncomingMetrics call pushed).
      Info s io               Run's arm `info := <-infoSource`: handleInstanceInfo(info) with info.IP = s and
                              info.Instance = io (None = lookup failed or found nothing).
      Emit                    Run's arm `statser := <-emitChan`: emit.
@@ -23,7 +24,7 @@
    Parked metrics are kept as the list of series that were parked, in arrival order; the real
    awaitingMetrics[s] is the MetricMap obtained by merging them (Corr/C11.v compares through that
    projection, [abs_entries]).  A series is a [MetricMap.entry] (name, key, payload, source, tags).
-   [sent] is a ghost: sources popped and not yet answered.  The three queue gauges are uint64: arithmetic
+   [sent], [pushed], [popped] are ghosts (lookups outstanding at the cache; every push; every send).  The three queue gauges are uint64: arithmetic
    modulo 2^64, so that an underflow shows as 2^64-1 exactly as in Go.  [down] is the log of everything
    handed to the downstream handler: for every item the item as it ENTERED the stage and the instance that
    was applied (ghost pair); what downstream receives is [delivered].
@@ -97,11 +98,80 @@ Definition u64 (z : Z) : Z := z mod 2 ^ 64.
 Definition inc64 (z : Z) : Z := u64 (z + 1).
 Definition dec64 (z : Z) : Z := u64 (z - 1).
 
+(* The lookup side of the handler: toLookupIPs together with the one-slot send register of Run
+   (toLookupIP / toLookupC), and ghost logs.
+
+   toLookupIPs is a stack.  handleIncomingEvent pushes at most one source, so its position is determined;
+   handleIncomingMetrics pushes one source per NEW source met while iterating Go maps, in an order the code does
+   not determine.  The stack is therefore kept as a list of GROUPS (head = top): the sources pushed by one arm, in
+   unknown relative order.  Groups are strictly LIFO; inside a group any order is possible.
+   After every arm Run refills its register: if it is empty and the stack is not, the top element is popped into
+   it.  Which element of the top group that is cannot be observed until it is sent, so the model only FLAGS the
+   group the register was loaded from (at most one group is flagged): one unknown element of the flagged group
+   sits in the register, the rest of the group still lies at its place in the stack.  The send arm
+   `toLookupC <- toLookupIP` (label SendLookup s) takes s out of the flagged group. *)
+Record lstate := Lk {
+  stack : list (bool * list source);   (* toLookupIPs + register, as groups; flag = register loaded from here *)
+  sent : list source;                  (* ghost: received by the cache through IpSink(), not yet answered *)
+  pushed : list source;                (* ghost: every append to toLookupIPs, in order *)
+  popped : list source                 (* ghost: every source handed to IpSink(), in order *)
+}.
+
+(* everything queued for lookup and not yet handed to the cache (stack and register) *)
+Definition lk_pending (k : lstate) : list source := mjoin (snd <$> stack k).
+
+(* an arm that iterates a map opens a group, pushes into it, and closes it (an empty group vanishes) *)
+Definition lk_open (k : lstate) : lstate := Lk ((false, []) :: stack k) (sent k) (pushed k) (popped k).
+Definition lk_push (s : source) (k : lstate) : lstate :=
+  Lk (match stack k with
+      | (f, g) :: r => (f, s :: g) :: r
+      | [] => [(false, [s])]
+      end) (sent k) (pushed k ++ [s]) (popped k).
+Definition drop_empty_top (stk : list (bool * list source)) : list (bool * list source) :=
+  match stk with (_, []) :: r => r | _ => stk end.
+Definition lk_close (k : lstate) : lstate := Lk (drop_empty_top (stack k)) (sent k) (pushed k) (popped k).
+(* a single push is a group of its own *)
+Definition lk_push1 (s : source) (k : lstate) : lstate :=
+  Lk ((false, [s]) :: stack k) (sent k) (pushed k ++ [s]) (popped k).
+
+Fixpoint remove_one (s : source) (l : list source) : list source :=
+  match l with
+  | [] => []
+  | x :: r => if decide (x = s) then r else x :: remove_one s r
+  end.
+Fixpoint count (s : source) (l : list source) : nat :=
+  match l with
+  | [] => 0
+  | x :: r => (if decide (x = s) then 1 else 0) + count s r
+  end.
+
+(* the send arm: s leaves the flagged group (an emptied group vanishes); None = the register cannot hold s *)
+Fixpoint send_from (stk : list (bool * list source)) (s : source) : option (list (bool * list source)) :=
+  match stk with
+  | [] => None
+  | (true, g) :: r =>
+      if bool_decide (s ∈ g)
+      then Some (match remove_one s g with [] => r | g' => (false, g') :: r end)
+      else None
+  | (false, g) :: r => cons (false, g) <$> send_from r s
+  end.
+Definition lk_send (s : source) (k : lstate) : option lstate :=
+  (λ stk, Lk stk (s :: sent k) (pushed k) (popped k ++ [s])) <$> send_from (stack k) s.
+
+(* the refill at the bottom of Run's loop: register empty and stack not -> load from the top *)
+Definition refill_stack (stk : list (bool * list source)) : list (bool * list source) :=
+  if existsb fst stk then stk
+  else match stk with (_, g) :: r => (true, g) :: r | [] => [] end.
+Definition lk_refill (k : lstate) : lstate := Lk (refill_stack (stack k)) (sent k) (pushed k) (popped k).
+
+(* a lookup result for s: one outstanding lookup of s is answered (ghost) *)
+Definition lk_answer (s : source) (k : lstate) : lstate :=
+  Lk (stack k) (remove_one s (sent k)) (pushed k) (popped k).
+
 Record state := St {
   awaitM : gmap source (list entry);   (* awaitingMetrics, as the series merged into each slot *)
-  awaitE : gmap source (list cevent);   (* awaitingEvents *)
-  toLookup : list source;              (* toLookupIPs *)
-  sent : list source;                  (* ghost: handed towards IpSink(), not yet answered *)
+  awaitE : gmap source (list cevent);  (* awaitingEvents *)
+  lk : lstate;                         (* toLookupIPs, register, ghosts *)
   hostsM : Z;                          (* statsMetricHostsQueued *)
   hostsE : Z;                          (* statsEventHostsQueued *)
   itemsE : Z;                          (* statsEventItemsQueued *)
@@ -109,7 +179,11 @@ Record state := St {
   emitted : list (Z * Z * Z)           (* (hosts_queued{metric}, hosts_queued{event}, items_queued) per emit *)
 }.
 
-Definition init : state := St ∅ ∅ [] [] 0 0 0 [] [].
+Definition init : state := St ∅ ∅ (Lk [] [] [] []) 0 0 0 [] [].
+
+Definition pending (st : state) : list source := lk_pending (lk st).
+Definition with_lk (st : state) (k : lstate) : state :=
+  St (awaitM st) (awaitE st) k (hostsM st) (hostsE st) (itemsE st) (down st) (emitted st).
 
 Inductive label :=
 | ArriveMetrics (es : list entry) (peek : peekfn)
@@ -119,8 +193,7 @@ Inductive label :=
 | Emit.
 
 Definition push_down (st : state) (rs : list drec) : state :=
-  St (awaitM st) (awaitE st) (toLookup st) (sent st) (hostsM st) (hostsE st) (itemsE st)
-     (down st ++ rs) (emitted st).
+  St (awaitM st) (awaitE st) (lk st) (hostsM st) (hostsE st) (itemsE st) (down st ++ rs) (emitted st).
 
 (* len(ch.awaitingEvents[source]) == 0 *)
 Definition no_events (st : state) (s : source) : bool :=
@@ -131,12 +204,12 @@ Definition park_metric (lg : bool) (st : state) (e : entry) : state :=
   let s := entry_src e in
   match awaitM st !! s with
   | Some q =>
-      St (<[s := q ++ [e]]> (awaitM st)) (awaitE st) (toLookup st) (sent st)
+      St (<[s := q ++ [e]]> (awaitM st)) (awaitE st) (lk st)
          (hostsM st) (hostsE st) (itemsE st) (down st) (emitted st)
   | None =>
       let ne := no_events st s in
       St (<[s := [e]]> (awaitM st)) (awaitE st)
-         (if ne then s :: toLookup st else toLookup st) (sent st)
+         (if ne then lk_push s (lk st) else lk st)
          (if lg && negb ne then hostsM st else inc64 (hostsM st))
          (hostsE st) (itemsE st) (down st) (emitted st)
   end.
@@ -148,7 +221,7 @@ Definition park_event (lg : bool) (st : state) (e : cevent) : state :=
   let first := match q with [] => true | _ => false end in
   let nom := match awaitM st !! s with None => true | Some _ => false end in
   St (awaitM st) (<[s := q ++ [e]]> (awaitE st))
-     (if first && nom then s :: toLookup st else toLookup st) (sent st)
+     (if first && nom then lk_push1 s (lk st) else lk st)
      (hostsM st)
      (if first && (nom || negb lg) then inc64 (hostsE st) else hostsE st)
      (inc64 (itemsE st)) (down st) (emitted st).
@@ -162,8 +235,13 @@ Definition metric_hits (peek : peekfn) (es : list entry) : list drec :=
 Definition metric_misses (peek : peekfn) (es : list entry) : list entry :=
   List.filter (λ e, is_miss peek (entry_src e)) es.
 
+(* handleIncomingMetrics: all sources it pushes form one group *)
+Definition open_group (st : state) : state := with_lk st (lk_open (lk st)).
+Definition close_group (st : state) : state := with_lk st (lk_close (lk st)).
+
 Definition arrive_metrics (lg : bool) (st : state) (es : list entry) (peek : peekfn) : state :=
-  fold_left (park_metric lg) (metric_misses peek es) (push_down st (metric_hits peek es)).
+  close_group (fold_left (park_metric lg) (metric_misses peek es)
+                         (open_group (push_down st (metric_hits peek es)))).
 
 Definition arrive_event (lg : bool) (st : state) (e : cevent) (peek : peekfn) : state :=
   match resolve peek (ev_src e) with
@@ -171,22 +249,11 @@ Definition arrive_event (lg : bool) (st : state) (e : cevent) (peek : peekfn) : 
   | None => park_event lg st e
   end.
 
-Fixpoint remove_one (s : source) (l : list source) : list source :=
-  match l with
-  | [] => []
-  | x :: r => if decide (x = s) then r else x :: remove_one s r
-  end.
-Fixpoint count (s : source) (l : list source) : nat :=
-  match l with
-  | [] => 0
-  | x :: r => (if decide (x = s) then 1 else 0) + count s r
-  end.
-
 (* handleInstanceInfo: release the metric slot, then the event slot, of info.IP *)
 Definition release_metrics (st : state) (s : source) (io : option instance) : state :=
   match awaitM st !! s with
   | Some q =>
-      St (delete s (awaitM st)) (awaitE st) (toLookup st) (sent st)
+      St (delete s (awaitM st)) (awaitE st) (lk st)
          (dec64 (hostsM st)) (hostsE st) (itemsE st)
          (down st ++ map (λ e, Drec (IM e) io) q) (emitted st)
   | None => st
@@ -194,29 +261,28 @@ Definition release_metrics (st : state) (s : source) (io : option instance) : st
 Definition release_events (st : state) (s : source) (io : option instance) : state :=
   match awaitE st !! s with
   | Some (e :: q) =>
-      St (awaitM st) (delete s (awaitE st)) (toLookup st) (sent st)
+      St (awaitM st) (delete s (awaitE st)) (lk st)
          (hostsM st) (dec64 (hostsE st)) (u64 (itemsE st - Z.of_nat (length (e :: q))))
          (down st ++ map (λ e, Drec (IE e) io) (e :: q)) (emitted st)
   | _ => st
   end.
-Definition answer (st : state) (s : source) : state :=
-  St (awaitM st) (awaitE st) (toLookup st) (remove_one s (sent st))
-     (hostsM st) (hostsE st) (itemsE st) (down st) (emitted st).
+Definition answer (st : state) (s : source) : state := with_lk st (lk_answer s (lk st)).
 
-Definition step_gen (lg : bool) (st : state) (l : label) : option state :=
+(* one arm of Run's select, without the refill *)
+Definition arm (lg : bool) (st : state) (l : label) : option state :=
   match l with
   | ArriveMetrics es peek => Some (arrive_metrics lg st es peek)
   | ArriveEvent e peek => Some (arrive_event lg st e peek)
-  | SendLookup s =>
-      if bool_decide (s ∈ toLookup st)
-      then Some (St (awaitM st) (awaitE st) (remove_one s (toLookup st)) (s :: sent st)
-                    (hostsM st) (hostsE st) (itemsE st) (down st) (emitted st))
-      else None
+  | SendLookup s => with_lk st <$> lk_send s (lk st)
   | Info s io => Some (answer (release_events (release_metrics st s io) s io) s)
   | Emit =>
-      Some (St (awaitM st) (awaitE st) (toLookup st) (sent st) (hostsM st) (hostsE st) (itemsE st)
+      Some (St (awaitM st) (awaitE st) (lk st) (hostsM st) (hostsE st) (itemsE st)
                (down st) (emitted st ++ [(hostsM st, hostsE st, itemsE st)]))
   end.
+Definition refill (st : state) : state := with_lk st (lk_refill (lk st)).
+
+(* one iteration of Run's loop: the arm, then the refill *)
+Definition step_gen (lg : bool) (st : state) (l : label) : option state := refill <$> arm lg st l.
 
 (* the code as it is (after fix 0b11cb1) and as it was *)
 Definition step : state -> label -> option state := step_gen false.
@@ -226,7 +292,7 @@ Definition step_legacy : state -> label -> option state := step_gen true.
    to the cache and is still unanswered *)
 Definition step_env (st : state) (l : label) : option state :=
   match l with
-  | Info s _ => if bool_decide (s ∈ sent st) then step st l else None
+  | Info s _ => if bool_decide (s ∈ sent (lk st)) then step st l else None
   | _ => step st l
   end.
 
